@@ -101,6 +101,22 @@ Proof.
 Qed.
 Print Assumptions C14_launch_to_start.
 
+Theorem C14_launch_without_common_version : forall c cert_env dir cmd_env host_env sc addr cert hc o,
+  EnvP.ctl c -> cert_env <> [] ->
+  sv_key sc = Env.e_cookie_key c -> sv_value sc = Env.e_cookie_value c -> Env.e_cookie_key c <> [] -> Env.e_cookie_value c <> [] ->
+  Env.e_versions c = mkeys (client_map (Handshake.h_client hc)) ->
+  Forall in64 (mkeys (client_map (Handshake.h_client hc))) -> Forall in64 (mkeys (server_map (sv_serve sc))) ->
+  mkeys (server_map (sv_serve sc)) <> [] ->
+  disjoint (mkeys (server_map (sv_serve sc))) (mkeys (client_map (Handshake.h_client hc))) ->
+  no_bar addr = true -> no_nl addr = true -> no_bar cert = true -> forallb plain_byte cert = true ->
+  let penv := ChainP.to_pairs (Env.build_env gen_env_params c cert_env dir cmd_env host_env) in
+  exists line, serve gen_sv_params sc penv addr cert = [SvListen; SvPrint line; SvSwapStdio] /\
+    ((blen line < max_token)%N -> forall rest t, exists eff,
+       start_after_launch gen_hs_params hc o (line ++ 10%N :: rest) t = [(OErr EAppVersion, eff)] /\ has_kill eff = true).
+Proof.
+  apply ChainP.launch_without_common_version; [reflexivity|]. unfold in64, int_min, int_max. cbn. split; discriminate.
+Qed.
+
 (* ... and the mismatches surface at start, with the plugin terminated: the announced version is not one the host has;
    the announced protocol is not allowed; multiplexing was asked for from a plugin that does not advertise it *)
 Lemma gen_core_eq : svp_core gen_sv_params = hp_core gen_hs_params. Proof. reflexivity. Qed.
